@@ -10,8 +10,15 @@ every tick and the hook fired for every probe cgroup.
 `holds`: the clauses of C13 evaluated on the implementation's observations against a *declarative*
 reference computed from the operation list (`Ref` below: the last effective operation per tag decides
 whether it is active; recency orders the active tags) - it never calls the model's `addDropInConfig` /
-`removeDropInConfig` / `compileDropIn`.  The reversibility clause compares two implementation traces
-(the history and its twin without the removed tag) and needs no reference at all. -/
+`removeDropInConfig` / `compileDropIn`.  Clauses: `refused_as_whole` / `accepted_when_permitted` (result of
+every operation), `added_count`, `failed_add_leaves_nothing`, `lifo_before_base` (detector sequence of
+every tick = drop-ins newest first, then the base), `enabled_iff`, `scoped_replacement` (prerun sequence:
+which parts every ruleset has), `fresh_copy` (every ruleset of the evaluation order pauses / suspends /
+resumes on its own, with the base's post_action_delay, name and prekill-hook time-out; a re-added
+drop-in starts from scratch), `hook_priority` (hook fired per probe cgroup).  The reversibility clause
+compares two implementation traces (the history and its twin without the removed tag) and needs no
+reference at all.  Not compared anywhere: log text, which hooks were asked (`canRunOnCgroup` calls),
+plugin construction / init order, `oomd.dropin.fired`. -/
 namespace Driver.Dropin
 open Lean OomdModel.Engine OomdModel.DropIn
 
@@ -27,6 +34,8 @@ def parsePlug (j : Json) : PlugJ :=
   | _ => { inst := asNat j, bad := false }
 
 structure RsJ where
+  /-- identity of this IR ruleset inside the scenario (base index / tick, operation, position) -/
+  key : String := ""
   rid : Nat
   groups : List (Nat × List PlugJ)
   actions : List PlugJ
@@ -98,11 +107,18 @@ def parseCall (j : Json) : Call :=
   let p := asInt (a.getD 2 Json.null)
   { ret := r, adv := asNat (a.getD 1 Json.null), pause := if p < 0 then none else some (p.toNat * NS) }
 
-def parseTick (j : Json) : TickJ :=
+def keyOp (pfx : String) (o : OpJ) : OpJ :=
+  match o with
+  | .add t rss hs => .add t ((List.range rss.length).zip rss |>.map fun (k, r) => { r with key := s!"{pfx}k{k}" }) hs
+  | o => o
+
+def parseTick (idx : Nat) (j : Json) : TickJ :=
   let calls := match jobj j "calls" with
     | Json.obj kvs => kvs.toList.map fun (k, v) => (k.toNat!, parseCall v)
     | _ => []
-  { gap := jnat j "gap", calls := calls, ops := (jarr j "ops").map parseOp }
+  let ops := (jarr j "ops").map parseOp
+  { gap := jnat j "gap", calls := calls
+    ops := (List.range ops.length).zip ops |>.map fun (i, o) => keyOp s!"t{idx}o{i}" o }
 
 structure Scn where
   base : List RsJ
@@ -112,12 +128,14 @@ structure Scn where
   ticks : List TickJ
 
 def parseScn (sc : Json) (ticksKey : String := "ticks") : Scn :=
-  let base := (jarr sc "rulesets").map parseRsJ
+  let base0 := (jarr sc "rulesets").map parseRsJ
+  let base := (List.range base0.length).zip base0 |>.map fun (i, r) => { r with key := s!"b{i}" }
+  let tks := jarr sc ticksKey
   { base := base
     root := if jhas sc "root" then (jarr sc "root").map parseRsJ else base
     hooks := (jarr sc "hooks").map parseHook
     probes := jstrs sc "probes"
-    ticks := (jarr sc ticksKey).map parseTick }
+    ticks := (List.range tks.length).zip tks |>.map fun (i, t) => parseTick i t }
 
 def Scn.allOps (s : Scn) : List OpJ := s.ticks.flatMap (·.ops)
 
@@ -230,9 +248,20 @@ namespace Ref
 structure Parts where
   dets : List Nat
   acts : List Nat
+  /-- identity (a re-added drop-in is a new ruleset), detector groups, and what a copy keeps from the base -/
+  key : String := ""
+  groups : List (List Nat) := []
+  delay : Nat := 0
+  hookTimeout : Nat := 0
+  rname : String := ""
 deriving BEq, Repr
 
-def partsOf (r : RsJ) : Parts := { dets := r.groups.flatMap fun g => g.2.map (·.inst), acts := r.actions.map (·.inst) }
+def secs (s : String) (dflt : Nat) : Nat := (if s.isEmpty then dflt else s.toNat?.getD 0) * NS
+
+def partsOf (r : RsJ) : Parts :=
+  { dets := r.groups.flatMap fun g => g.2.map (·.inst), acts := r.actions.map (·.inst)
+    key := r.key, groups := r.groups.map fun g => g.2.map (·.inst)
+    delay := secs r.delay 15, hookTimeout := secs r.hookTimeout 5, rname := s!"r{r.rid}" }
 
 /-- a base-IR ruleset can be instantiated -/
 def baseOk (r : RsJ) : Bool :=
@@ -286,7 +315,9 @@ def orderWith (s : Scn) (act : List (String × List RsJ × List HookJ)) (force :
     let bp := partsOf b
     let ds := mine.map fun d =>
       let dp := partsOf d
-      { dets := if d.groups.isEmpty then bp.dets else dp.dets, acts := if d.actions.isEmpty then bp.acts else dp.acts : Parts }
+      -- a copy of the base: only the supplied parts come from the drop-in
+      { bp with dets := if d.groups.isEmpty then bp.dets else dp.dets, acts := if d.actions.isEmpty then bp.acts else dp.acts
+                groups := if d.groups.isEmpty then bp.groups else dp.groups, key := d.key }
     let on := match force with
       | some m => m.getD i true
       | none => !(b.perm.disable && !mine.isEmpty)
@@ -311,6 +342,73 @@ def fired (s : Scn) (act : List (String × List RsJ × List HookJ)) (probe : Str
 
 end Ref
 
+/-! "fresh copy of the base": every ruleset of the evaluation order behaves as a ruleset of its own -
+own pause deadline (with the base's post_action_delay), own suspended chain, the base's name and
+prekill-hook time-out in the action context; a re-added drop-in starts from scratch -/
+
+structure Abs where
+  pauseUntil : Nat := 0
+  susp : Option Nat := none
+
+def takeThrough (sc : Nat → Call) : List Nat → List Nat
+  | [] => []
+  | a :: as => if (sc a).ret == Ret.cont then a :: takeThrough sc as else [a]
+
+def iNow : IEv → Nat
+  | IEv.d _ n => n
+  | IEv.a _ n _ _ _ _ _ => n
+  | _ => 0
+def iInst : IEv → Nat
+  | IEv.p i => i
+  | IEv.d i _ => i
+  | IEv.a i _ _ _ _ _ _ => i
+def isA : IEv → Bool
+  | IEv.a .. => true
+  | _ => false
+
+/-- cut the run-phase events into one segment per expected ruleset (its detectors, then the actions
+that follow); `none` if the events do not have that shape -/
+def segments : List Ref.Parts → List IEv → Option (List (List IEv × List IEv))
+  | [], [] => some []
+  | [], _ => none
+  | p :: ps, evs =>
+    let ds := evs.take p.dets.length
+    let rest := evs.drop p.dets.length
+    if ds.map iInst != p.dets || ds.any isA then none
+    else
+      let as := rest.takeWhile isA
+      (segments ps (rest.dropWhile isA)).map fun r => (ds, as) :: r
+
+def checkFresh (sc : Nat → Call) (p : Ref.Parts) (ds as : List IEv) (A : Abs) : Bool × Abs :=
+  let T := match ds.getLast? with | some e => iNow e + (sc (iInst e)).adv | none => 0
+  let paused := decide (T < A.pauseUntil)
+  let firedIdx := p.groups.findIdx? fun g => g.all fun d => (sc d).ret != Ret.stop
+  let expected :=
+    if paused then []
+    else match A.susp with
+      | some i => takeThrough sc (p.acts.drop i)
+      | none => if firedIdx.isSome then takeThrough sc p.acts else []
+  let got := as.map iInst
+  let nameOk := as.all fun e => match e with | IEv.a _ _ r _ _ _ _ => r == p.rname | _ => true
+  -- a chain started on this tick carries the deadline "fired + the base's prekill_hook_timeout"
+  let dlOk := match (if paused then none else A.susp), firedIdx, as.head? with
+    | none, some gi, some (IEv.a _ _ _ _ _ dl _) =>
+      let upto := ((p.groups.take (gi + 1)).map List.length).foldl (· + ·) 0
+      match ds[upto - 1]? with
+      | some e => dl == Int.ofNat (iNow e + (sc (iInst e)).adv + p.hookTimeout)
+      | none => true
+    | _, _, _ => true
+  let A' : Abs := match as.getLast? with
+    | none => A
+    | some e =>
+      let c := sc (iInst e)
+      let tEnd := iNow e + c.adv
+      match c.ret with
+      | Ret.stop => { pauseUntil := tEnd + c.pause.getD p.delay, susp := none }
+      | Ret.async => { A with susp := some ((p.acts.idxOf? (iInst e)).getD 0) }
+      | Ret.cont => { A with susp := none }
+  (got == expected && nameOk && dlOk, A')
+
 def detSeq (evs : List IEv) : List Nat := evs.filterMap fun e => match e with | IEv.d i _ => some i | _ => none
 def preSeq (evs : List IEv) : List Nat := evs.filterMap fun e => match e with | IEv.p i => some i | _ => none
 
@@ -321,6 +419,7 @@ def check (s : Scn) (t : ITrace) : List String := Id.run do
   let mut opRes := t.ops
   let mut lastOpFailed := false
   let mut prevOk := true
+  let mut abs : List (String × Abs) := []
   for (tk, (evs, pr)) in s.ticks.zip (t.ticks.zip t.probes) do
     lastOpFailed := false
     for o in tk.ops do
@@ -347,6 +446,18 @@ def check (s : Scn) (t : ITrace) : List String := Id.run do
       prevOk := false
     else if preSeq evs != exp.flatMap (fun p => p.dets ++ p.acts) then
       v := v ++ ["C13.scoped_replacement"]
+    else
+      let runEvs := evs.filter fun e => match e with | IEv.p _ => false | _ => true
+      match segments exp runEvs with
+      | none => v := v ++ ["C13.scoped_replacement"]
+      | some segs =>
+        let mut abs' : List (String × Abs) := []
+        for (p, (ds, as)) in exp.zip segs do
+          let (ok, A') := checkFresh (callOf tk.calls) p ds as ((abs.lookup p.key).getD {})
+          if !ok then v := v ++ ["C13.fresh_copy"]
+          abs' := abs' ++ [(p.key, A')]
+        -- a disabled base ruleset does not run but keeps its state
+        abs := abs' ++ abs.filter fun kv => !(abs'.any fun kv' => kv'.1 == kv.1)
     for (pb, f) in pr do
       if f != Ref.fired s act pb then v := v ++ ["C13.hook_priority"]
   if t.ticks.length != s.ticks.length then v := v ++ ["trace.missing_ticks"]
